@@ -131,15 +131,29 @@ def run(ctx):
                 r = peel(c["r"], NO_T)
                 if r.get("k") == "mcall" and r["m"] == "len" and local_of(r["r"], NO_T) == stack_b:
                     loops.append((w, local_of(c["l"], NO_T)))
-        if len(loops) != 1:
-            raise AnchorMissing("expected exactly one `while i < stack.len()` scan in stack_to_expression, found %d" % len(loops))
-        w, si = loops[0]
-        info = fn.bindings()[si]
-        start = const_eval(info["init"]) if info.get("init") is not None else None
-        steps = fn.assignments_to(si)
-        body_stmts = w["body"]["st"] + ([w["body"]["tail"]] if "tail" in w["body"] else [])
-        ascending = start == 0 and len(steps) == 1 and steps[0].get("k") == "assignop" and steps[0]["op"] == "AddAssign" and \
-            const_eval(steps[0]["r"]) == 1 and any(s is steps[0] for s in body_stmts)
+        # the same scan written as `for i in 0..stack.len()`
+        range_loops = []
+        for w in fn.nodes("for"):
+            rng = peel(w["iter"], NO_T)
+            if rng.get("k") == "struct" and (rng.get("r") or {}).get("p", "").endswith("ops::Range") and w["pat"].get("k") == "bind":
+                fl = dict((name, v) for name, v in rng.get("f", []))
+                end = peel(fl.get("end", {}), NO_T)
+                if const_eval(fl.get("start", {})) == 0 and end.get("k") == "mcall" and end["m"] == "len" and local_of(end["r"], NO_T) == stack_b:
+                    range_loops.append((w, w["pat"]["b"]))
+        if len(loops) + len(range_loops) != 1:
+            raise AnchorMissing("expected exactly one `while i < stack.len()` / `for i in 0..stack.len()` scan in stack_to_expression, found %d" % (
+                len(loops) + len(range_loops)))
+        if range_loops:
+            w, si = range_loops[0]
+            ascending = not fn.assignments_to(si)
+        else:
+            w, si = loops[0]
+            info = fn.bindings()[si]
+            start = const_eval(info["init"]) if info.get("init") is not None else None
+            steps = fn.assignments_to(si)
+            body_stmts = w["body"]["st"] + ([w["body"]["tail"]] if "tail" in w["body"] else [])
+            ascending = start == 0 and len(steps) == 1 and steps[0].get("k") == "assignop" and steps[0]["op"] == "AddAssign" and \
+                const_eval(steps[0]["r"]) == 1 and any(s is steps[0] for s in body_stmts)
         # best index: the local that receives the scan counter inside the loop
         upd = [a for a in fn.walk(w) if a.get("k") == "assign" and local_of(a["r"], NO_T) == si and local_of(a["l"], NO_T) is not None]
         best_idx = {local_of(a["l"], NO_T) for a in upd}
@@ -541,7 +555,7 @@ def run(ctx):
         for name, op in sorted(want.items()):
             fn = F.fn("datamodel::" + name)
             pl, pr = fn.params[0]["b"], fn.params[1]["b"]
-            cmps = [b for b in fn.walk() if b.get("k") == "bin" and b["op"] in ("Lt", "Le", "Gt", "Ge")]
+            cmps = [b for b in fn.walk() if b.get("k") == "bin" and b["op"] in ("Lt", "Le", "Gt", "Ge") and not macros_of(b)]   # not the level test inside warn!
             own = [b for b in cmps if b["op"] == op]
             order_ok = all(hirq.mentions_local(b["l"], pl) and not hirq.mentions_local(b["l"], pr) and
                            hirq.mentions_local(b["r"], pr) and not hirq.mentions_local(b["r"], pl) for b in cmps)
